@@ -121,11 +121,14 @@ def run_check(check_id: str, tier: str, seed: int) -> int:
     os.makedirs(os.path.join(ROOT, "replays"), exist_ok=True)
     printed = set()
     lines = []
-    for v in real:
+    kinds_seen: dict = {}
+    real_sorted = sorted(real, key=lambda v: len(json.dumps(v.get("case"), default=str)))  # smallest case first
+    for v in real_sorted:
         key = v["kind"] + "|" + json.dumps(v.get("sig", {}), sort_keys=True)
-        if key in printed:
+        if key in printed or kinds_seen.get(v["kind"], 0) >= 2:
             continue
         printed.add(key)
+        kinds_seen[v["kind"]] = kinds_seen.get(v["kind"], 0) + 1
         hh = hashlib.blake2b(json.dumps(v, sort_keys=True, default=str).encode(), digest_size=6).hexdigest()
         path = os.path.join(ROOT, "replays", f"{check_id}-{v['kind']}-{hh}.json")
         v2 = dict(v)
@@ -137,7 +140,7 @@ def run_check(check_id: str, tier: str, seed: int) -> int:
         with open(path[:-5] + ".py", "w") as f:
             f.write(REPLAY_PY.format(root=ROOT, path=path, check=check_id, msg=v["msg"].replace('"""', "'''")))
         lines.append(f"VIOLATION property={check_id} replay={path}  # {v['kind']}: {v['msg'][:300]} (x{viol_counts.get(key, 1)})")
-        if len(lines) >= 12:
+        if len(lines) >= 8:
             break
     for what, n in known_hits.items():
         print(f"KNOWN-FINDING: property={check_id} {what} (matched {n} executions)")
